@@ -28,10 +28,20 @@ _m(
     "or key by key through add_constraint / add_hard_constraint, set the mask, read obj - are merged in a drawn interleaving (each "
     "model keeps its own order); optional early reads give 'read A, build/configure B, read A again'; at the end EVERY model is read, "
     "the first-built last, and each read is judged against that model's OWN requested settings (defaults for keys it never set).  "
+    "(recon) END TO END: a tiny Ptychography object (ROI 4-8 px, 2-3 x 2-3 scan, padding 0-2, S 1..3 slices, M 1..3 probe modes, "
+    "object from array / uniform / random, simulated positive data) and a drawn history of 1-3 reconstruct() calls with real "
+    "optimiser steps (num_iters 1-3, sgd/adam for object and optionally probe, optional mini-batches), each call with its own "
+    "reset flag and its own constraints dict for the object model {identical_slices, positivity, apply_fov_mask, "
+    "fix_potential_baseline, a soft weight} and/or the probe model {orthogonalize_probe, a soft weight} (keys present or absent).  "
+    "After EVERY call obj_model.obj, the patches obj_model.forward() hands to the forward model and probe_model.probe are judged "
+    "with the invariants above against what THAT call requested explicitly (tying / positivity / orthogonalisation only when the "
+    "call says True; |o| <= 1 always; pure_phase |o| = 1 unless a tying may still be active); at set-up the initial probe must carry "
+    "the dataset's mean diffraction intensity with the default weights.  "
     "A case is NON-TRIVIAL when: obj complex/pure_phase - some |raw| > 1 and some |raw| < 1 (in float32); obj potential and tomo - "
     "some raw < 0 and some raw > 0; ortho - M >= 2 and largest pairwise correlation > 0.5; init - M >= 2 with given, not all equal "
     "weights; obj_multi - the models' effective hard settings differ and at least one model is non-trivial by the obj rule; tomo_multi "
-    "- requested positivity differs between the models and a positivity model has mixed-sign voxels.  distinct = SHA-1 of the canonical JSON of the whole case.",
+    "- requested positivity differs between the models and a positivity model has mixed-sign voxels; recon - some call explicitly requests identical_slices=True with S > 1, positivity=True "
+    "for a potential object, or orthogonalize_probe=True with M >= 2.  distinct = SHA-1 of the canonical JSON of the whole case.",
     [
         "invariants are evaluated by the harness in float64/complex128 on the tensors quantem returns; quantem code is never "
         "re-run as its own reference (the only self-application is the re-application C(C(x)) the property itself names)",
@@ -52,6 +62,12 @@ _m(
         "does); without any mask those options are exercised through apply_hard_constraints(mask=None)",
         "multi-instance cases assume what the single-instance claim already implies: a model's constraints are its own state, so "
         "building or configuring another model must not change them; each model is judged with the same invariants and tolerances",
+        "recon: a setting is only asserted when the judged call itself requests it (what an unmentioned key means after reset=True/False "
+        "is quantem's carry-over policy, not part of the property); the orthogonality tolerance uses cond of the Gram matrix of the raw "
+        "probe parameters read after the call, and is skipped (counted) when those modes left the domain (correlation > 0.99 or smallest "
+        "eigenvalue < 0.005); a history whose raw parameters became non-finite (diverged optimisation) is counted and not judged; "
+        "center_probe is never switched on (per-mode shifts are not claimed to keep orthogonality); gc.freeze() after a warm-up only "
+        "removes the cost of reconstruct()'s gc.collect() calls",
         "ObjectDIP / ProbeDIP / ProbeParametric are not driven (the property quantifies over raw parameter tensors of the pixelated "
         "models); Gaussian/Butterworth filters are never switched on",
     ],
